@@ -28,7 +28,9 @@ RULE = ('programs "def prog(a, b=..): [v0 = E;] [v1 = E;] return E" with E '
         'arguments, list/tuple/dict literal, functools.partial (also chained), '
         'arg_factory.partial, call of auto_config functions (inlined, '
         'always_inline=False, auto_unconfig), exempt(F)(..), with_tags, '
-        'builtin call} up to a call-node budget; function forms: def, nested '
+        'builtin call, one method as bound method and as plain function} up '
+        'to a call-node budget; a custom exemption policy that also covers '
+        'functools.partial / auto_config helpers; function forms: def, nested '
         'def with closure cells whose names sort before/between/after the '
         'handler cells, lambda, staticmethod, classmethod; control-flow '
         'templates (if / for / comprehension / conditional expression) with '
@@ -94,6 +96,8 @@ def exprs(budget, names, allow_partial=True):
   for s, n in subs0:
     yield f'auto_config.exempt(N.node_b)(x={s})', 1
   yield 'arg_factory.partial(N.node, x=N.node_b)', 1
+  yield 'functools.partial(N.Mid)', 1          # nothing bound
+  yield 'N.node(x=functools.partial(N.node_b), y=functools.partial(N.node_b))', 2
   yield 'arg_factory.partial(N.node, x=functools.partial(N.node_b, x=a))', 1
   yield ("arg_factory.partial(N.node, x=functools.partial(N.node_pos, a, 'p2'"
          ", 'v1'))"), 1
@@ -177,6 +181,18 @@ def programs(b):
           f"prog = d['{pick}']\n")
     yield 'lambda-pair', (
         f"d = (lambda a, b='bd': {e1}, lambda a, c='bd': {e2})\nprog = d[1]\n")
+  # a custom exemption policy that (also) says yes for functools.partial and
+  # for auto_config helpers: those are still handled by auto_config itself
+  for e in bodies[:24]:
+    if 'functools.partial' in e or 'acfg.' in e or 'arg_factory' in e:
+      yield 'policy', f'{hdr}  return {e}\n'
+  yield 'policy', (f'{hdr}  return N.node(x=functools.partial(N.Mid, a), '
+                   f'y=acfg.helper_inline(b))\n')
+  # one method under both spellings in one program, either order
+  for e in ("[N.SCALER.scale(a, bias=b), N.Scaler.scale(N.SCALER, a, bias=b)]",
+            "[N.Scaler.scale(N.SCALER, a, bias=b), N.SCALER.scale(a, bias=b)]",
+            "N.node(x=N.SCALER.scale(a), y=N.Scaler.scale(N.SCALER, bias=a))"):
+    yield 'method-spellings', f'{hdr}  return {e}\n'
   # control flow (experimental_allow_control_flow=True)
   for e in bodies[:12]:
     yield 'cf-ifexp', f"{hdr}  return ({e}) if a else N.node_b(x=b)\n"
@@ -220,6 +236,15 @@ def load_program(kind, src):
   name = f'_c11_prog_{next(_counter)}'
   filename = f'<{name}>'
   cf = kind.startswith('cf-')
+  policy = None
+  if kind == 'policy':
+    from fiddle._src.experimental import auto_config_policy  # pylint: disable=g-import-not-at-top
+    def policy(fn):
+      # a non-inlined auto_config helper that the policy exempts is
+      # legitimately called (that is what exempting means); the inlined
+      # helper and the two partial constructors are auto_config's own
+      return (auto_config_policy.latest(fn) or fn is functools.partial or
+              fn is arg_factory.partial or fn is acfg.helper_inline)
 
   def exec_with(decorator_src):
     code = src.replace('  @DECORATOR\n', decorator_src)
@@ -248,6 +273,10 @@ def load_program(kind, src):
       decorated = auto_config.auto_config(
           plain, experimental_allow_control_flow=True,
           experimental_result_must_contain_buildable=False)
+    elif policy is not None:
+      decorated = auto_config.auto_config(
+          plain, experimental_result_must_contain_buildable=False,
+          experimental_exemption_policy=policy)
     else:
       decorated = auto_config.auto_config(
           plain, experimental_result_must_contain_buildable=False)
